@@ -5,7 +5,8 @@
 
 Every worker gets a scratch git worktree of /repo and a private copy of /verif (built caches
 included) under /tmp/par/<k>; the copy's harness is pointed at the worktree and the checks run
-with VERIF_REPO set to it.  A seed without an explicit property list is run against all 17.
+with VERIF_REPO set to it.  A seed without an explicit property list is run against all 17; the seed id NONE applies no
+patch (e.g. PAR_TIER=thorough parmatrix.py 4 log NONE runs every thorough check on the unchanged tree).
 Everything under /tmp/par is removed at the end.  (Development tool: the registered checks never
 use it.)"""
 import json
@@ -48,14 +49,14 @@ def worker(k, jobs, log, lock):
     env = dict(os.environ, VERIF_REPO=repo, CARGO_NET_OFFLINE="true")
     for sid, props in jobs:
         patch = os.path.join(ROOT, "seeded", sid, "patch.diff")
-        rc, out = sh("git -C %s apply %s" % (repo, patch))
+        rc, out = (0, "") if sid == "NONE" else sh("git -C %s apply %s" % (repo, patch))
         if rc != 0:
             with lock:
                 log.write("%s apply failed: %s\n" % (sid, out[:200]))
                 log.flush()
             continue
         for p in props:
-            rc, out = sh("./check %s --tier quick" % p, cwd=v, env=env)
+            rc, out = sh("./check %s --tier %s" % (p, os.environ.get("PAR_TIER", "quick")), cwd=v, env=env, timeout=7200)
             lines = [l for l in out.split("\n") if l.startswith("VIOLATION") or l.startswith("  ")]
             verdict = "VIOLATION" if rc == 1 and any(l.startswith("VIOLATION") for l in lines) else ("clean" if rc == 0 else "error rc=%d %s" % (rc, out[-300:].replace("\n", " ")))
             with lock:
